@@ -38,6 +38,7 @@ fn spell(t: &mut Tape, ctx: &[String], target: &[String]) -> String {
 }
 
 pub struct ScopeCase {
+    pub has_banks: bool,
     pub prog: Program,
     pub moved: Option<Program>,
     pub fault: Option<&'static str>,
@@ -220,7 +221,30 @@ pub fn gen_scope(t: &mut Tape) -> ScopeCase {
         // the chain stands at the end of the file (a global constant resets the scope: nothing follows it);
         // its head is read by the first item
         items.insert(0, Item::Data { width: Some(32), elems: vec![E::Var("zc0".into())] });
+        for g in global_consts.iter_mut() {
+            *g += 1;
+        }
         items.extend(chain);
+    }
+    // v2: bank directives between declarations and uses. A bank switch declares nothing: the scope of the labels
+    // before it stays open (one bank without a size, re-selected at random places: the layout does not change)
+    let mut has_banks = false;
+    if crate::engine::gen_version() >= 2 && t.chance(1, 5) {
+        has_banks = true;
+        let mut at: Vec<usize> = (0..t.urange(1, 3)).map(|_| t.below(items.len() + 1)).collect();
+        at.sort();
+        for p in at.into_iter().rev() {
+            items.insert(p, Item::Bank("zb".into()));
+            for g in global_consts.iter_mut() {
+                if *g >= p {
+                    *g += 1;
+                }
+            }
+        }
+        items.insert(0, Item::BankDef(BankDef { name: "zb".into(), addr: Some(0), outp: Some(0), ..Default::default() }));
+        for g in global_consts.iter_mut() {
+            *g += 1;
+        }
     }
     let prog = Program { isa: Default::default(), items };
     // metamorphic variant: move the global address-free constants (k*) to the end or the start.
@@ -257,7 +281,7 @@ pub fn gen_scope(t: &mut Tape) -> ScopeCase {
         }
         moved = Some(Program { isa: Default::default(), items });
     }
-    ScopeCase { prog, moved, fault, reused_names: reused }
+    ScopeCase { prog, moved, fault, reused_names: reused, has_banks }
 }
 
 /// C15/C16 border: the same program with runs of items that declare no GLOBAL symbol wrapped into selected
@@ -379,7 +403,7 @@ impl Property for C15 {
             return Verdict::fail(c, d);
         }
         if let RefResult::Ok(m) = &model {
-            if let Some(src3) = if crate::engine::gen_version() >= 2 { wrap_in_ifs(t, &case.prog) } else { None } {
+            if let Some(src3) = if crate::engine::gen_version() >= 2 && !case.has_banks { wrap_in_ifs(t, &case.prog) } else { None } {
                 ctx.label("if-wrapped-variant");
                 let out3 = sut::assemble_src(&src3, &Opts::default());
                 ctx.evals += 1;
